@@ -26,6 +26,8 @@ open Tbs
 
 /-- `SERIAL_BITS_HALF` = 2³¹ -/
 def HALF : Nat := 2147483648
+/-- 2³² -/
+def M32 : Nat := 4294967296
 
 /-- `impl PartialOrd for SerialNumber` (RFC 1982 §3.2), `None` when the distance is exactly 2³¹ -/
 def serialCmp (i1 i2 : Nat) : Option Ordering :=
@@ -298,8 +300,6 @@ check and the seconds the signature remained valid from then on; `get` serves th
 the validator's clock is inside that span (serial distance, so a clock set back is a miss too) and
 hands out at most what is left of it as TTL. -/
 
-def M32 : Nat := 4294967296
-
 /-- repaired `get` on a live entry -/
 def serveFixed (e : CacheEntry) (r : Request) : Option Verdict :=
   match e.sigSpan with
@@ -317,6 +317,23 @@ def validateFixed (sigValid : SigOracle) (cfg : CacheConfig) (c : Cache) (r : Re
 
 def runHistoryFixed (sigValid : SigOracle) (cfg : CacheConfig) (c : Cache) (hist : List Request) :
     List (Verdict × Bool) := runHistoryG sigValid cfg serveFixed c hist
+
+/-! #### decidable classes of the two known deviations (mirrored by the harness) -/
+
+/-- class `validation-cache-outlives-signature`: a Secure verdict served from the cache while the
+validator's clock is outside the RRSIG's window, or with a TTL above the remaining signature
+lifetime (`expiration.wrapping_sub(now)`) -/
+def outlivesSignature (r : Request) (v : Verdict) (fresh : Bool) : Bool :=
+  !fresh && v.proof == .secure &&
+    (!(serialLe r.now r.rrsig.input.expiration && serialGe r.now r.rrsig.input.inception) ||
+     (match v.adjustedTtl with
+      | some t => decide (t > (r.rrsig.input.expiration + M32 - r.now) % M32)
+      | none => false))
+
+/-- class `validation-cache-key-folds-rdata-case`: same cache key, different signed RDATA -/
+def sameKeyOtherRdata (r' r : Request) : Bool :=
+  r'.ck == r.ck && r'.rrsig == r.rrsig &&
+    r'.records.map (fun x => canonBytes x.data) != r.records.map (fun x => canonBytes x.data)
 
 /-- `VerifiedRrset::update_rrset` : the TTL every record of the RRset leaves with -/
 def updatedTtl (v : Verdict) (recordTtl : Nat) : Nat :=
